@@ -48,7 +48,7 @@ var rSizes = []int{0, 1, 7, 4095, 4096, 4097, 8193, 20000}
 type srcSpec struct {
 	Len      int
 	ErrAt    int // bytes at positions >= ErrAt are never delivered; the error comes instead
-	ErrKind  int // 0 io.EOF, 1 io.ErrUnexpectedEOF, 2 custom
+	ErrKind  int // 0 io.EOF, 1 io.ErrUnexpectedEOF, 2 custom, 3 an error wrapping io.EOF, 4 timeout
 	WithData bool
 	Sched    int
 	ZeroMax  int
@@ -58,12 +58,18 @@ type srcSpec struct {
 	ZerosBeforeErr int
 }
 
+var errWrappedEOF = fmt.Errorf("conn 10.0.0.7:8888 closed by peer: %w", io.EOF)
+
 func (s srcSpec) err() error {
 	switch s.ErrKind {
 	case 1:
 		return io.ErrUnexpectedEOF
 	case 2:
 		return doubles.ErrCustom
+	case 3:
+		return errWrappedEOF // the source's own error value, which happens to wrap io.EOF
+	case 4:
+		return doubles.ErrTimeout
 	}
 	return io.EOF
 }
@@ -705,7 +711,7 @@ func sumOps(ops []rOp) int {
 
 // randomSpec picks a source behaviour for a history consuming about `need` bytes.
 func randomSpec(r *rand.Rand, need int) srcSpec {
-	s := srcSpec{Sched: r.Intn(doubles.NSched), ErrKind: r.Intn(3), WithData: r.Intn(2) == 0}
+	s := srcSpec{Sched: r.Intn(doubles.NSched), ErrKind: r.Intn(5), WithData: r.Intn(2) == 0}
 	switch r.Intn(4) {
 	case 0:
 		s.Len = need + r.Intn(5000) // enough data
